@@ -432,8 +432,9 @@ palette_delta_harness!(pal_delta_pred_west_2x1, 1, 2, 2, Predictor::West, false,
 palette_delta_harness!(pal_delta_pred_north_1x2, 1, 2, 1, Predictor::North, false, i32::MAX);
 palette_delta_harness!(pal_delta_pred_west_2x1_2ch, 2, 2, 2, Predictor::West, false, 255); // two channels: the predictor state restarts per channel
 palette_delta_harness!(pal_delta_pred_avg_2x1, 1, 2, 2, Predictor::AvgWestAndNorth, false, i32::MAX);
-palette_delta_harness!(pal_delta_pred_gradient_2x2, 1, 4, 2, Predictor::Gradient, false, 255);
-palette_delta_harness!(pal_delta_pred_select_2x2, 1, 4, 2, Predictor::Select, false, 255);
+// NOT registered (measured): a 2x2 image (the smallest with a real NW neighbour, e.g. Gradient / Select) makes `need_delta` grow by
+// four conditional pushes that are read back afterwards; CBMC exceeds 14 GB within 90 s. Three-neighbour routing of the predictor
+// state itself is covered by md.pred_neighbours_* (predictor.rs).
 // every index explicit (fast path): same postcondition
 palette_delta_harness!(pal_delta_all_explicit_west_2x1, 1, 2, 2, Predictor::West, true, i32::MAX);
 palette_delta_harness!(pal_delta_all_explicit_north_1x2, 1, 2, 1, Predictor::North, true, i32::MAX);
